@@ -112,7 +112,7 @@ class C02(Prop):
     }
 
     def budget(self, tier):
-        return dict(examples=1200, shards=16) if tier == "quick" else dict(examples=20000, shards=16)
+        return dict(examples=1200, shards=16) if tier == "quick" else dict(examples=40000, shards=16)
 
     def strategy(self, tier):
         return cases(tier)
